@@ -180,7 +180,7 @@ func (f *vf18Fake) Run(ctx context.Context, name string, args ...string) ([]byte
 		}
 		return []byte("ActiveState=" + st + "\nSubState=running\nResult=success\n"), nil
 	case name == f.sb.runner.BinaryPath:
-		return []byte("v0 (verif) built on 2026-01-01T00:00:00Z\n"), nil
+		return []byte(vf18Ver("63") + " (verif) built on 2026-01-01T00:00:00Z\n"), nil
 	default:
 		return nil, nil
 	}
@@ -506,6 +506,22 @@ func (sb *vf18Sandbox) phase() string {
 	if j == nil {
 		return "none"
 	}
+	return sb.rawPhase(j) + ":" + vf18VerID(j.From) + ">" + vf18VerID(j.To)
+}
+
+// an interrupted upgrade whose snapshot completed (journal neither finished nor at "started")
+func vf18Resumable(j *vf18Journal) bool {
+	if j == nil {
+		return false
+	}
+	switch j.Phase {
+	case "completed", "rolled_back", "started":
+		return false
+	}
+	return true
+}
+
+func (sb *vf18Sandbox) rawPhase(j *vf18Journal) string {
 	for _, pre := range []string{"swapping:", "swapped:"} {
 		if strings.HasPrefix(j.Phase, pre) {
 			rest := strings.TrimPrefix(j.Phase, pre)
@@ -528,7 +544,7 @@ func (sb *vf18Sandbox) curVersion() string {
 	if m, err := ParseManifestFile(filepath.Join(sb.runner.StateRoot, "current-manifest.yaml")); err == nil {
 		return vf18VerID(m.OsvbngVersion)
 	} else if errors.Is(err, os.ErrNotExist) {
-		return "none"
+		return "63" // no current-manifest: discovery asks the binary, which the fake answers with version id 63
 	}
 	return "?"
 }
@@ -538,7 +554,7 @@ func (sb *vf18Sandbox) observeVer(res, mon, ver, rm string) string {
 	if m, err := ParseManifestFile(filepath.Join(sb.runner.StateRoot, "current-manifest.yaml")); err == nil {
 		cur = vf18VerID(m.OsvbngVersion)
 	} else if errors.Is(err, os.ErrNotExist) {
-		cur = "none"
+		cur = "63"
 	}
 	var sn []int
 	if ents, err := os.ReadDir(sb.runner.RollbackRoot); err == nil {
@@ -838,7 +854,7 @@ func vf18ExpectedNew(a vf18Art) string {
 }
 
 func (sb *vf18Sandbox) monRestored(cur []string) string {
-	if !sb.hasBase || !sb.baseOK {
+	if !sb.hasBase {
 		return "na"
 	}
 	for p, want := range sb.base {
@@ -852,7 +868,7 @@ func (sb *vf18Sandbox) monRestored(cur []string) string {
 // resolved-content monitor: after a reported rollback every artifact path of the upgrade reads (through
 // symlinks) as it did before the upgrade, unless the operator edited something in between
 func (sb *vf18Sandbox) resRestored() string {
-	if !sb.hasBase || !sb.baseOK || !sb.clean {
+	if !sb.hasBase || !sb.clean {
 		return "na"
 	}
 	for p, want := range sb.baseRes {
@@ -864,7 +880,7 @@ func (sb *vf18Sandbox) resRestored() string {
 }
 
 func (sb *vf18Sandbox) verRestored() string {
-	if !sb.hasBase || !sb.baseOK {
+	if !sb.hasBase {
 		return "na"
 	}
 	if sb.curVersion() != sb.baseVer {
@@ -890,6 +906,17 @@ func (sb *vf18Sandbox) doApply(tokens []string) string {
 	afterCommit := fake.crash == 35
 	if afterCommit {
 		fake.crash = 32
+	}
+	jPrior, _ := sb.journal()
+	resumable := vf18Resumable(jPrior)
+	afterSnapshot := fake.crash == 36
+	if afterSnapshot {
+		// label 36 exists only where ApplyOne takes a fresh snapshot of a non-interrupted box
+		fake.crash = 25
+		if resumable {
+			fake.crash = 0
+			afterSnapshot = false
+		}
 	}
 	opts := ApplyOptions{ForceRetry: kv["force"] == "1"}
 	if e := kv["exp"]; e != "-" && e != "" {
@@ -938,13 +965,32 @@ func (sb *vf18Sandbox) doApply(tokens []string) string {
 			res = "harness-error"
 		}
 	}
+	if afterSnapshot && res == "crash" && fake.crashedAt == 25 {
+		// label 36: the process dies after Snapshot() returned and before saveCurrentManifest.  As for label
+		// 35 there is no injectable call in between: die at Stage 5 (journal "started", nothing of the stage
+		// has run), then run the stage's first statement with the real code.
+		st, err := ExtractTarball(tarPath)
+		fake.dead, fake.crash = false, 0 // the version fallback asks the (fake) binary
+		from, _ := sb.runner.discoverCurrentVersion(context.Background())
+		fake.dead = true
+		if err == nil {
+			if _, _, serr := Snapshot(sb.runner.RollbackRoot, from, st.Manifest.OsvbngVersion, st.Manifest); serr != nil {
+				res = "err" // Snapshot itself fails (unsupported kind): ApplyOne would have returned the error
+			}
+			_ = st.Cleanup()
+		} else {
+			res = "harness-error"
+		}
+	}
 	j, jid := sb.journal()
-	if j != nil && jid != jidBefore { // this apply wrote the journal
+	if j != nil && jid != jidBefore && !resumable {
+		// Baseline of the monitors = the installed state when an upgrade starts on a box that is NOT in the
+		// middle of an interrupted upgrade.  An apply that continues an interrupted upgrade (ForceRetry) does
+		// not move it: "before the upgrade" stays the last state no upgrade had touched.
 		sb.baseVer = preVer
 		sb.baseRes = preRes
 		sb.clean = true
 		sb.hasBase = true
-		sb.baseOK = j.Phase != "started"
 		sb.base = map[int]string{}
 		for _, a := range arts {
 			sb.base[a.p] = pre[a.p]
@@ -1046,8 +1092,10 @@ func vf18RunCase(line, root string, key, wrong *ecdsa.PrivateKey, pubPEM []byte)
 	if err != nil {
 		return "harness-error"
 	}
-	if err := sb.plantCurrent(vf18Ver(f[1])); err != nil {
-		return "harness-error"
+	if f[1] != "63" { // version id 63 = never-upgraded box without current-manifest.yaml
+		if err := sb.plantCurrent(vf18Ver(f[1])); err != nil {
+			return "harness-error"
+		}
 	}
 	if f[2] != "-" {
 		for _, it := range strings.Split(f[2], ",") {
